@@ -50,7 +50,10 @@ type ChainParams struct {
 	WideForks     bool
 	OddVectors    bool
 	CoverForks    [5]bool
-	ZeroHashMerge int // 1 = the merge block carries block_hash 0, 0 = random per chain, -1 = never
+	CommitteeDrop bool // exact genesis active count on a committee-count threshold; slashings at slot 1 drop it inside phase0
+	Phase0Leak    bool // long phase0 with a leak and wrong-target votes (needs ForkBias phase0long)
+	DepositFork   bool // side branch sharing the pubkey cache registers another key at the next validator index first
+	ZeroHashMerge int  // 1 = the merge block carries block_hash 0, 0 = random per chain, -1 = never
 	// Retry: regenerate with another sub-seed (at most 6 times) until this counter is non-zero
 	RetryUntil  string
 	GenesisOnly bool // directory with genesis records only (C13 stream)
@@ -123,6 +126,8 @@ func generateOnce(pr ChainParams) (res ChainResult) {
 	if pr.OddVectors {
 		knobs.OddVectors = true
 	}
+	knobs.CommitteeDrop = knobs.CommitteeDrop || pr.CommitteeDrop
+	knobs.Phase0Leak = knobs.Phase0Leak || pr.Phase0Leak
 	sp := TinySpec(r.Fork(), knobs)
 	if err := CheckSpec(sp); err != nil {
 		res.Err = err
@@ -136,9 +141,11 @@ func generateOnce(pr ChainParams) (res ChainResult) {
 	c = &Chain{Name: pr.Name, Scenario: sc, Spec: sp, Rng: r.Fork(), Rec: rec, BLS: NewBLSTable(), Stats: NewStats(),
 		Planned: map[common.Epoch]*EpochPlan{}, Vars: map[string]int{}, depositors: map[common.BLSPubkey]GenVal{},
 		slashedSet: map[common.ValidatorIndex]bool{}, exitSet: map[common.ValidatorIndex]bool{}, activated: map[common.ValidatorIndex]bool{},
-		aggDone: map[common.Root]bool{}, Epochs: pr.Epochs, Absent: map[common.ValidatorIndex]bool{}, justified: map[common.Epoch]bool{}, modeOf: map[common.Epoch]string{}}
+		aggDone: map[common.Root]bool{}, Epochs: pr.Epochs, Absent: map[common.ValidatorIndex]bool{}, justified: map[common.Epoch]bool{}, modeOf: map[common.Epoch]string{}, wrongTargetIncluded: map[common.Epoch]int{}}
 	c.OpRate = sc.Rates
 	c.CoverForks = pr.CoverForks
+	c.Phase0LeakMix = pr.Phase0Leak
+	c.CommitteeDropChain = pr.CommitteeDrop && !pr.Plain
 	c.ZeroHashMerge = pr.ZeroHashMerge > 0 || pr.ZeroHashMerge == 0 && c.Rng.Chance(35)
 	res.Stats = c.Stats
 	rec.Comment(fmt.Sprintf("chain %s scenario=%s seed=%d epochs=%d", pr.Name, sc.Name, pr.Seed, pr.Epochs))
@@ -151,6 +158,15 @@ func generateOnce(pr ChainParams) (res ChainResult) {
 		if gk.MaxVals < 64 {
 			gk.MaxVals = 64
 		}
+	}
+	if pr.CommitteeDrop && !pr.Plain {
+		// active count exactly k * SLOTS_PER_EPOCH * TARGET_COMMITTEE_SIZE (k committees per slot, 2 <= k <= 4), at least 48
+		u := int(sp.SLOTS_PER_EPOCH) * int(sp.TARGET_COMMITTEE_SIZE)
+		k := 2
+		for k*u < 48 {
+			k++
+		}
+		gk.ExactActive = k * u
 	}
 	plan := MakeGenesisPlan(r.Fork(), sp, gk)
 	// adversarial genesis records first (C13)
@@ -169,6 +185,9 @@ func generateOnce(pr ChainParams) (res ChainResult) {
 	}
 	c.noteState(c.St)
 	c.initSets()
+	if pr.DepositFork {
+		c.DepositForkEpisode()
+	}
 	if sc.Init != nil {
 		sc.Init(c)
 	}
